@@ -79,7 +79,7 @@ pub fn type_specs(thorough: bool) -> Vec<TySpec> {
 }
 
 pub fn prelude(specs: &[TySpec]) -> String {
-    let mut s = String::from("qubit r;\nqubit[4] q;\n");
+    let mut s = String::from("qubit r;\nqubit[4] q;\nqubit[1] q1;\nqubit[2] q2;\nqubit[8] q8;\n");
     for t in specs {
         s.push_str(&format!("{} v_{};\n", t.spell, t.ident));
         if let Some(l) = t.lit {
@@ -117,6 +117,14 @@ pub fn value_forms(specs: &[TySpec]) -> Vec<(String, String, bool)> {
     }
     v.push(("measure r".into(), "measure_qubit".into(), false));
     v.push(("measure q".into(), "measure_reg".into(), false));
+    // registers of every small length (a register of length 1 is still a register), slices,
+    // single elements and hardware qubits
+    v.push(("measure q1".into(), "measure_reg1".into(), false));
+    v.push(("measure q2".into(), "measure_reg2".into(), false));
+    v.push(("measure q8".into(), "measure_reg8".into(), false));
+    v.push(("measure q[0]".into(), "measure_elem".into(), false));
+    v.push(("measure q1[0]".into(), "measure_elem1".into(), false));
+    v.push(("measure $0".into(), "measure_hw".into(), false));
     let numeric: Vec<&TySpec> = specs.iter().filter(|t| matches!(t.ty, Type::Int(..) | Type::UInt(..) | Type::Float(..) | Type::Complex(..))).collect();
     for a in &numeric {
         for b in &numeric {
